@@ -18,11 +18,20 @@ ROOT = os.path.dirname(os.path.dirname(os.path.abspath(__file__)))
 CRATE = os.path.join(ROOT, "replay")
 TARGET = os.path.join(ROOT, "build", "replay-target")
 
+_C14 = ("real RaftLog<MemStorage> vs a plain sequence model under random contract-abiding leader appends, follower maybe_append with "
+        "conflicts, commits, stabilisations, persistence notices, apply, storage compaction and snapshot restore (<= 14 ops); "
+        "first/last/term/slice/entries/conflict search/up-to-date/all_entries compared and applied <= committed <= last, persisted-vs-storage checked after every step")
 MONITORS = {
+    "C14": {"bin": "mon_c14", "quick": 20000, "thorough": 600000, "what": _C14},
+    "C05": {"bin": "mon_c14", "quick": 20000, "thorough": 600000, "what": _C14},
+    "C13": {"bin": "mon_c14", "quick": 20000, "thorough": 300000, "what": _C14 + " (only the log reads an append message is built from)"},
     "C18": {"bin": "mon_c18", "quick": 50000, "thorough": 3000000,
             "what": "real raft::Inflights vs the bounded-FIFO model under random sequences of add/free_to/free_first_one/reset/set_cap/maybe_free_buffer (cap 0..5, <= 14 ops)"},
     "C19": {"bin": "mon_c19", "quick": 20000, "thorough": 600000,
             "what": "real MemStorage vs the (snapshot point + contiguous entries) model under random contract-abiding append/compact/apply_snapshot/commit_to sequences; first/last/term/entries/snapshot compared after every step"},
+    "C04": {"bin": "mon_c04", "quick": 50000, "thorough": 3000000,
+            "what": "real single-voter RawNode<MemStorage> under random proposals, synchronous and asynchronous Ready handling and late / repeated / stale "
+                    "persistence notices (<= 17 ops): persisted index, the leader's own matched index and the commit index never exceed the last entry of the Readys reported durable"},
     "C11": {"bin": "mon_c11", "quick": 20000, "thorough": 600000,
             "what": "ProgressTracker::maximal_committed_index / tally_votes of the real crate vs the count-based quorum definitions, "
                     "voter sets of 1..10 members, joint configurations, group commit"},
